@@ -251,6 +251,7 @@ def _lammps(ctx, sh):
     world = {"F": F, "delivered": 0, "alive_polls": ctx.choice(6, "alive-polls"), "rc": rc, "exited": False, "killed": False,
              "waited": 0, "calls": [], "kills": 0, "alive_at_kill": None}
     e = ilmp.LAMMPSEngine.__new__(ilmp.LAMMPSEngine)
+    ibase.EngineBase.__init__(e, "bare-lammps", 1.0, 1)
     e._exe_dir = "/exe"
     e.ext = "lammpstrj"
     e.description = "lammps-stub"
@@ -423,6 +424,7 @@ def _cp2k(ctx, sh):
     world = {"F": F, "delivered_pos": 0, "delivered_vel": 0, "alive_polls": ctx.choice(6, "alive-polls"), "rc": rc,
              "exited": False, "killed": False, "waited": 0, "calls": [], "kills": 0, "alive_at_kill": None, "written": []}
     e = icp2k.CP2KEngine.__new__(icp2k.CP2KEngine)
+    ibase.EngineBase.__init__(e, "bare-cp2k", 1.0, 1)
     e._exe_dir = "/exe"
     e.ext = "xyz"
     e.description = "cp2k-stub"
@@ -546,6 +548,7 @@ def _gromacs(ctx, sh):
     maxlen = ctx.int("maxlen", 2, sh["F"] + 1)
     world = {"calls": [], "closed": 0, "yielded": 0}
     e = igmx.GromacsEngine.__new__(igmx.GromacsEngine)
+    ibase.EngineBase.__init__(e, "bare-gromacs", 1.0, 1)
     e._exe_dir = "/exe"
     e.ext = "g96"
     e.description = "gmx-stub"
